@@ -46,6 +46,10 @@ class Spec:
     def canon_model(self, line):
         return line
 
+    def same(self, case, impl, model):
+        """model/implementation agreement on one case (default: identical canonical lines)"""
+        return impl == model
+
     def post(self, cases, impl, model):
         """Cross-case oracle on the implementation's outputs.  Returns a list of
         (case, impl_line, what) concrete violations."""
@@ -106,7 +110,7 @@ def run_spec(spec, rep, tier, seed, coq=None):
                 concrete += 1
                 rep.violation(what, {"kind": "input", "case": c, "impl_output": i, "model_output": m,
                                      "how_to_run": "tools/check.py --property %s --replay <this file>" % pid})
-        if i != m and "UNSUPPORTED-BY-MODEL" not in m and m != "IMPL-ONLY":
+        if not spec.same(c, i, m) and "UNSUPPORTED-BY-MODEL" not in m and m != "IMPL-ONLY":
             mismatches.append((c, i, m))
     for c, i, what in spec.post(cases, impl, model):
         k = spec.known(c, i, None, what)
